@@ -573,6 +573,7 @@ def gen_cases(r, n, tier):
                 maxarity = max(maxarity, c13gen.max_arity(s["expr"]))
         case = {"files": {k: v.text() for k, v in mods.items()}, "expect": "accept", "rule": "valid", "line": 0,
                 "ops": ops, "flavour": flavour, "nfiles": len(mods), "max_arity": maxarity,
+                "nested": bool(m.meta.get("nested")),
                 "depth": m.meta["depth"], "positions": sorted(set(s["pos"] for s in m.sites))}
         yield case
         for _ in range(2):
@@ -760,6 +761,8 @@ def run(tier):
             arities[b] = arities.get(b, 0) + 1
         if c["expect"] == "reject":
             mutfile[c["file"]] = mutfile.get(c["file"], 0) + 1
+        if c.get("nested"):
+            nfiles["with-nested-inline-types"] = nfiles.get("with-nested-inline-types", 0) + 1
         for k, v in c.get("ops", {}).items():
             ops[k] = ops.get(k, 0) + v
         for p in c.get("positions", []):
